@@ -33,11 +33,46 @@ func main() {
 		return
 	}
 	r := gen.New(gen.Seed())
+	if os.Getenv("VERIF_MODE") == "burst" {
+		// concurrent histories: bursts of overlapping calls separated by quiescent points
+		n := gen.Scale(60, 1500)
+		for i := 0; i < n; i++ {
+			burstHistory(h, r, i)
+		}
+		h.EndHistory()
+		return
+	}
 	n := gen.Scale(250, 5000)
 	for i := 0; i < n; i++ {
 		history(h, r, i)
 	}
 	h.EndHistory()
+}
+
+func burstHistory(h *mp.H, r *gen.Rand, idx int) {
+	g := mp.NewGen(h, r)
+	g.Env(mp.GenEnv{CapMax: 8, PerMax: 3, LastMax: 4})
+	g.DefineSome(r.Range(5, 12), idx%5 == 0)
+	nev := r.Range(4, 14)
+	for i := 0; i < nev; i++ {
+		switch r.Pick(10, 2, 1, 1, 1, 1) {
+		case 0:
+			g.Burst()
+		case 1:
+			g.Push()
+		case 2:
+			g.AddBlock()
+		case 3:
+			g.Clock()
+		case 4:
+			g.Remove()
+		case 5:
+			g.DefineSome(r.Range(1, 3), false)
+		}
+	}
+	if idx < 2 {
+		out.Sample(strings.Join(g.Lines(), " ; "))
+	}
 }
 
 func history(h *mp.H, r *gen.Rand, idx int) {
